@@ -71,7 +71,7 @@ def bin_cut(cut_id, icw, ibw, ich, idl, d0, d1, ih, inputs, inverse, left, right
             for nm, f in facts(*real):
                 ctx.oblige("cut-lemma", f, label=f"{cut_id}.{nm}")
             ctx.hard_cut(list(zip(fr, real)), [f for _, f in facts(*fr)], keep_terms=box + [x])
-        ctx.notes["bin"] = dict(cw=fr[0], w=fr[1], ch=fr[2], dl=fr[3], d0=fr[4], d1=fr[5], h=fr[6])
+        ctx.notes["bin"] = dict(cw=fr[0], w=fr[1], ch=fr[2], dl=fr[3], d0=fr[4], d1=fr[5], h=fr[6], xl=fr[0], xr=fr[0] + fr[1], yl=fr[2], yr=fr[2] + fr[6])
         for o, v in zip(outs, fr):
             o[idx] = v
     return tuple(Sym.make(o, t.dtype) for o, t in zip(outs, ts))
@@ -218,6 +218,8 @@ def spline_native_clauses(fn, inp, res, inverse, same_scale=False):
     xt = tt(inp["x"]).requires_grad_(True)
     o2, ld2 = fn(xt, inverse)
     g, = torch.autograd.grad(o2.sum(), xt)
+    if x == lo or x == hi:
+        return c          # end-points are kinks of the float implementation (clamps): derivative clauses are not evaluated there
     pos = bool((g > 0).all())
     c["C09.strictly-increasing"] = pos
     agree = pos and bool(torch.allclose(torch.log(g), ld2.detach(), atol=1e-6, rtol=1e-6))
